@@ -57,14 +57,47 @@ Proof.
   destruct r; unfold apply_release; sup_simpl; cbn;
   try (destruct (code_set s); cbn);
   try (destruct (get j (insts s)) as [x|]; [exists x; split; [reflexivity|apply inst_latch_le_refl]|reflexivity]).
-  - destruct (N.eqb i j); destruct (get j (insts s)) as [x|]; cbn; try reflexivity;
-      try (exists x; split; [reflexivity|apply inst_latch_le_refl]).
-    eexists; split; [reflexivity|]. unfold inst_latch_le; cbn; repeat split; auto.
-  - destruct (N.eqb i j); destruct (get j (insts s)) as [x|]; cbn; try reflexivity;
-      try (exists x; split; [reflexivity|apply inst_latch_le_refl]).
-    eexists; split; [reflexivity|]. unfold inst_latch_le; cbn; repeat split; auto.
-    intros b Hb. now rewrite Hb.
-  - destruct (N.eqb i j); destruct (get j (insts s)) as [x|]; cbn; try reflexivity;
-      try (exists x; split; [reflexivity|apply inst_latch_le_refl]).
-    eexists; split; [reflexivity|]. unfold inst_latch_le; cbn; repeat split; auto.
+  all: match goal with |- context[N.eqb ?a ?b] => destruct (N.eqb a b) end;
+       destruct (get j (insts s)) as [x|]; cbn; try reflexivity;
+       try (exists x; split; [reflexivity|apply inst_latch_le_refl]).
+  all: eexists; split; [reflexivity|]; unfold inst_latch_le; cbn; repeat split; auto.
+  all: intros b Hb; now rewrite Hb.
+Qed.
+
+(* ---- step_core splits into the sub-step functions -------------------------------------------------- *)
+Inductive step_kind (s : sys) (th : tid) (e : event) (s' : sys) : Prop :=
+| KResume : e = EResume -> s' = s -> step_kind s th e s'
+| KBegin (i : iid) (x : inst) : e = EBegin i -> get i (insts s) = Some x -> get th (thinst s) = None -> get th (threads s) = None ->
+    (forall (t : tid) (j : iid), get t (thinst s) = Some j -> j <> i) ->
+    s' = s <| thinst := set th i (thinst s) |> -> step_kind s th e s'
+| KReg : step_reg s th e = Some s' -> step_kind s th e s'
+| KApi : step_api s th e = Some s' -> step_kind s th e s'
+| KStop : step_stop s th e = Some s' -> step_kind s th e s'
+| KState (i : iid) (s0 : status) : e = EState i s0 -> step_state s th i s0 = Some s' -> step_kind s th e s'
+| KProcEnd (i : iid) (s0 : status) (b : bool) : e = (if b then EProcEnd i s0 else EProcEnded i s0) -> step_procend s th i s0 b = Some s' -> step_kind s th e s'
+| KShutdown : step_shutdown s th e = Some s' -> step_kind s th e s'
+| KOrdered (i : iid) : e = EOrderedGo i -> step_ordered_go s th i = Some s' -> step_kind s th e s'
+| KEnv : step_env s th e = Some s' -> step_kind s th e s'
+| KOwn : step_own s th e = Some s' -> step_kind s th e s'.
+
+Lemma forallb_thinst_neq (m : amap iid) i :
+  forallb (fun p => negb (N.eqb (snd p) i)) m = true -> forall t j, get t m = Some j -> j <> i.
+Proof.
+  intros H t j Hg. apply get_in in Hg. rewrite forallb_forall in H. specialize (H _ Hg). cbn in H.
+  apply negb_true_iff, N.eqb_neq in H. exact H.
+Qed.
+
+Lemma step_core_kind s th e s' : step_core s th e = Some s' -> step_kind s th e s'.
+Proof.
+  intros H. unfold step_core in H. destruct e;
+  try (now apply KReg); try (now apply KApi); try (now apply KStop); try (now apply KShutdown);
+  try (now apply KEnv); try (now apply KOwn).
+  - break_step H. split_andb. unfold has in *.
+    destruct (get th (thinst s)) eqn:E3; [discriminate|]. destruct (get th (threads s)) eqn:E4; [discriminate|].
+    eapply KBegin; eauto using forallb_thinst_neq.
+  - eapply KState; eauto.
+  - injection H as <-. now apply KResume.
+  - eapply (KProcEnd _ _ _ _ i s0 true); eauto.
+  - eapply (KProcEnd _ _ _ _ i s0 false); eauto.
+  - eapply KOrdered; eauto.
 Qed.
